@@ -18,6 +18,7 @@ amplitude T₀ = B^{1/(β+3)},
   documentation it copies) has (α-1)/(β+3) + (γ-1) — the term 1/((k+1)(β+3)) is missing.
   `cog13_energy_ne_zero` is the negation of the property for *every* admissible input,
   `Finding_cog13_energy` instantiates it at the class defaults (a finding, not repaired).
+* domain: `WellDefined` fails on part of the documented parameter range (`Finding_cog13_domain`).
 -/
 import EPV.Gen.Cog13D
 import EPV.Spec.Euler1D
@@ -159,5 +160,19 @@ theorem Finding_cog13_energy :
       energyResT (Cog13.L1.density p) (Cog13.L1.velocity p) (Cog13.L1.temperature p)
         p.Gamma p.gamma (p.geometry - 1) 29970000000 (686 / 5) p.lambda0 p.alpha p.beta r t ≠ 0 :=
   ⟨_, 1, 1, cog13_default_wellDefined, rfl, cog13_energy_ne_zero _ 1 1 cog13_default_wellDefined (by norm_num)⟩
+
+/-- FINDING (domain, false on the current tree): inside the documented ranges (-1 ≤ α ≤ 2, 1 ≤ β ≤ 3)
+the bracket B of the temperature amplitude can be negative — class defaults with α = -1:
+α - 1 + (β+3)(γ-1) = -0.4 — so the generated expressions are not well defined; the real call
+returns a *complex* temperature, pressure and energy there. -/
+theorem Finding_cog13_domain :
+    ∃ p : Cog13.P, ∃ r t : ℝ, p.geometry = 3 ∧ 1 < p.gamma ∧ 0 < p.rho0 ∧ 0 < p.lambda0 ∧ 0 < p.Gamma ∧
+      -1 ≤ p.alpha ∧ p.alpha ≤ 2 ∧ 1 ≤ p.beta ∧ p.beta ≤ 3 ∧ 0 < r ∧ 0 < t ∧
+      ¬ Cog13.L1.WellDefined p r t := by
+  refine ⟨⟨40, 686 / 5, -1, -1, 1, 1, 29970000000, 7 / 5, 3, 1 / 10, 1 / 10, 9 / 5⟩, 1, 1, by norm_num,
+    by norm_num, by norm_num, by norm_num, by norm_num, by norm_num, by norm_num, by norm_num, by norm_num,
+    by norm_num, by norm_num, ?_⟩
+  rintro ⟨-, -, -, -, -, -, -, hB, -⟩
+  norm_num at hB
 
 end EPV.C01
